@@ -61,7 +61,7 @@ HasRich(o) == "curs" \in DOMAIN o
 SpanCellsOf(o) ==
   FlattenSeq([i \in DOMAIN o.spans |->
      [j \in DOMAIN o.spans[i].toks |-> [t |-> o.spans[i].t, tok |-> o.spans[i].toks[j], marks |-> ToSet(o.spans[i].marks)]]])
-RichObjOK(O, o) ==
+RichObjOK(O, o, rp) ==
   \A es \in {VisibleElems(O, o.id)} :
   \A ws \in {SeqWidths(O, o.id, enc)} :
   \A um \in {IF {"C24", "C25"} \cap CHECKS # {} THEN UnitMarks(O, o.id, enc) ELSE <<>>} :
@@ -70,6 +70,14 @@ RichObjOK(O, o) ==
   LET obj == o.id
       istext == o.ty = "text"
   IN
+  /\ \A want \in {[i \in DOMAIN es |->
+                      LET R == ElemReg(O, obj, es[i])
+                          w == CHOOSE x \in R : x.id = MaxId({y.id : y \in R})
+                      IN  [i |-> SumSeq(SubSeq(ws, 1, i - 1)), id |-> w.id, v |-> Shown(O, w), c |-> Cardinality(R) > 1]]} :
+       /\ Chk(rp, "list-range-yields-the-elements-with-their-indexes", o.lr = want)
+       /\ Chk("C24", "list-range-indexes-are-in-encoding-units", o.lr = want)
+       /\ Chk(rp, "values-yields-the-winning-values-in-order",
+              o.vs = [i \in DOMAIN want |-> [id |-> want[i].id, v |-> want[i].v]])
   /\ Chk("C24", "length-equals-width-of-the-string", istext => o.len = Width(enc, o.text))
   /\ Chk("C24", "spans-concatenate-to-the-text", istext => FlattenSeq([i \in DOMAIN o.spans |-> o.spans[i].toks]) = o.text)
   /\ Chk("C24", "mark-ranges-are-in-encoding-units", ToSet(o.marks) = runs)
@@ -100,8 +108,18 @@ RichObjOK(O, o) ==
                   /\ HasOp(O, c.a) /\ ElemOfOp(O, c.a) = es[at.i]
                   /\ HasOp(O, c.b) /\ ElemOfOp(O, c.b) = es[at.i])
 
-RichOK(O, view) ==
-  \A i \in DOMAIN view : HasRich(view[i]) => RichObjOK(O, view[i])
+RichMapOK(O, o, rp) ==
+  \A want \in {{LET R == MapReg(O, o.id, k)
+                     w == CHOOSE x \in R : x.id = MaxId({y.id : y \in R})
+                 IN  [k |-> k, id |-> w.id, v |-> Shown(O, w), c |-> Cardinality(R) > 1] : k \in MapKeys(O, o.id)}} :
+    /\ Chk(rp, "map-range-yields-the-winning-entries", Len(o.mr) = Cardinality(want) /\ ToSet(o.mr) = want)
+    /\ Chk(rp, "values-yields-the-winning-values",
+           Len(o.vs) = Cardinality(want) /\ ToSet(o.vs) = {[id |-> x.id, v |-> x.v] : x \in want})
+
+RichOK(O, view, rp) ==
+  \A i \in DOMAIN view :
+     /\ HasRich(view[i]) => RichObjOK(O, view[i], rp)
+     /\ ("mr" \in DOMAIN view[i]) => RichMapOK(O, view[i], rp)
 
 IsEv(k) == l <= Len(Rec) /\ E.ev = k /\ l' = l + 1
 
@@ -118,7 +136,7 @@ HasView == "obs" \in DOMAIN E /\ "view" \in DOMAIN E.obs
 ObsOK(opsTab) ==
   HasView => /\ ViewChk("C02", "view-equals-interpretation-of-applied-ops",
                         OpsOf(opsTab, S(E.obs.applied)), E.obs.view)
-             /\ RichOK(OpsOf(opsTab, S(E.obs.applied)), E.obs.view)
+             /\ RichOK(OpsOf(opsTab, S(E.obs.applied)), E.obs.view, "C02")
 
 (* C25 expand rule: a transaction consisting of one pure insertion into a text object places its
    first new element on the side of every mark boundary that the mark's expand flag asks for *)
@@ -137,8 +155,9 @@ IsoOK(opsTab) ==
   (Len(E.iso) > 0 /\ "calls" \in DOMAIN E /\ Len(E.calls) > 0 /\ "before" \in DOMAIN E.calls[1]) =>
      /\ ViewChk("C29", "isolated-reads-show-the-state-at-the-isolation-heads",
                 OpsOf(ops, Anc(deps, S(E.iso[1]))), E.calls[1].before)
-     /\ (HasView => ViewChk("C29", "after-commit-document-is-merge-of-isolated-change",
-                             OpsOf(opsTab, S(E.obs.applied)), E.obs.view))
+     /\ (HasView => /\ ViewChk("C29", "after-commit-document-is-merge-of-isolated-change",
+                                OpsOf(opsTab, S(E.obs.applied)), E.obs.view)
+                     /\ RichOK(OpsOf(opsTab, S(E.obs.applied)), E.obs.view, "C29"))
 
 (* causality of the ops themselves: everything an op names (its object, the element it is keyed
    on, its predecessors) was created by the change itself or by an ancestor of its dependencies *)
@@ -173,7 +192,7 @@ ReadAt ==
          A == Anc(deps, H)
          O == OpsOf(ops, A)
      IN  /\ ViewChk(HP, "view-at-heads-equals-interpretation-of-ancestors", O, E.view)
-         /\ RichOK(O, E.view)
+         /\ RichOK(O, E.view, HP)
          /\ Chk(HP, "fork-at-succeeds", "err" \notin DOMAIN E.fork)
          /\ ("err" \notin DOMAIN E.fork) =>
                /\ Chk(HP, "fork-at-heads-are-the-given-heads", S(E.fork.heads) = H)
@@ -193,15 +212,81 @@ Curs ==
                 c.pos = CursorPos(O, c.obj, enc, c.id, c.mode))
   /\ UNCHANGED <<ops, deps, enc>>
 
+(* C30: ids captured earlier (possibly on another replica, under another actor table) used here *)
+IdSummary(O, id) ==
+  IF id # ROOT /\ ~(\E o \in O : o.id = id /\ o.act = "make")
+  THEN [ty |-> "err", keys |-> {}, len |-> 0, text |-> <<>>]
+  ELSE LET ty == ObjTypeOf(O, id) IN
+       IF ty \in {"map", "table"} THEN [ty |-> ty, keys |-> MapKeys(O, id), len |-> 0, text |-> <<>>]
+       ELSE Let1(VisibleElems(O, id), LAMBDA es :
+              IF ty = "list" THEN [ty |-> ty, keys |-> {}, len |-> Len(es), text |-> <<>>]
+              ELSE [ty |-> ty, keys |-> {}, len |-> SumSeq([i \in DOMAIN es |-> ElemWidth(O, id, es[i], enc)]),
+                    text |-> FlattenSeq([i \in DOMAIN es |-> ElemToks(O, id, es[i])])])
+SumOf(x) == [ty |-> x.ty, keys |-> S(x.keys), len |-> x.len, text |-> x.text]
+AfterEdit(sm) ==
+  IF sm.ty = "err" THEN sm
+  ELSE IF sm.ty \in {"map", "table"} THEN [sm EXCEPT !.keys = @ \cup {"zz"}]
+  ELSE IF sm.ty = "list" THEN [sm EXCEPT !.len = @ + 1]
+  ELSE [sm EXCEPT !.len = @ + 1, !.text = <<"z">> \o @]
+IdProbe ==
+  /\ IsEv("idprobe")
+  /\ \A O \in {OpsOf(ops, S(E.obs.applied))} :
+     \A i \in DOMAIN E.list :
+       \A sm \in {IdSummary(O, E.list[i].id)} :
+       \A j \in DOMAIN E.list[i].results :
+         LET x == E.list[i].results[j] IN
+         /\ Chk("C30", "id-reads-the-same-object-or-nothing", SumOf(x) = sm)
+         /\ Chk("C30", "id-edits-the-same-object-or-fails",
+                (x.edit = "ok") = (sm.ty # "err") /\ SumOf(x.after) = AfterEdit(sm))
+  /\ UNCHANGED <<ops, deps, enc>>
+
+(* C40: load with StringMigration::ConvertToText *)
+StrOps(R) == {o \in R : o.act = "set" /\ o.val.k = "str"}
+IsMapLike(O, obj) == ObjTypeOf(O, obj) \in {"map", "table"}
+(* registers of a map or list object, as [k, e] handles *)
+RegHandles(O, obj) ==
+  IF IsMapLike(O, obj) THEN {[map |-> TRUE, k |-> k, e |-> HEAD] : k \in MapKeys(O, obj)}
+  ELSE IF ObjTypeOf(O, obj) = "list" THEN {[map |-> FALSE, k |-> "", e |-> e] : e \in ToSet(VisibleElems(O, obj))}
+  ELSE {}
+RegOps(O, obj, h) == IF h.map THEN MapReg(O, obj, h.k) ELSE ElemReg(O, obj, h.e)
+TextToksOf(O, id) == Let1(VisibleElems(O, id), LAMBDA es : FlattenSeq([i \in DOMAIN es |-> ElemToks(O, id, es[i])]))
+HasVisibleString(O) ==
+  \E obj \in Reachable(O) : \E h \in RegHandles(O, obj) : StrOps(RegOps(O, obj, h)) # {}
+
+Migrate ==
+  /\ IsEv("migrate")
+  /\ Chk("C40", "migrating-load-succeeds", E.res = "ok")
+  /\ (E.res = "ok") =>
+     \A O \in {OpsOf(ops, S(E.obs.applied))} :
+     \A N \in {UNION {{OpRec(E.added[i].ops[j]) : j \in DOMAIN E.added[i].ops} : i \in DOMAIN E.added}} :
+     \A O2 \in {O \cup N} :
+       /\ Chk("C40", "at-most-one-added-change-on-top-of-the-history",
+              Len(E.added) <= 1 /\ S(E.mapplied) = S(E.obs.applied) \cup {E.added[i].hash : i \in DOMAIN E.added}
+              /\ \A i \in DOMAIN E.added : S(E.added[i].deps) = S(E.obs.heads))
+       /\ Chk("C40", "no-visible-string-means-no-added-change", ~HasVisibleString(O) => Len(E.added) = 0)
+       /\ ViewChk("C40", "migrated-document-is-the-interpretation-of-history-plus-added-change", O2, E.mview)
+       /\ Chk("C40", "no-visible-string-left", ~HasVisibleString(O2))
+       /\ \A obj \in Reachable(O) :
+            \A h \in RegHandles(O, obj) :
+              \A R \in {RegOps(O, obj, h)} : \A R2 \in {RegOps(O2, obj, h)} :
+                IF StrOps(R) = {}
+                THEN Chk("C40", "register-without-string-keeps-its-values", R2 = R)
+                ELSE Chk("C40", "register-with-strings-holds-text-of-the-highest-id-string",
+                         /\ Cardinality(R2) = 1
+                         /\ \A t \in R2 : /\ t.act = "make" /\ t.val.s = "text"
+                                           /\ TextToksOf(O2, t.id) =
+                                                (CHOOSE o \in StrOps(R) : o.id = MaxId({p.id : p \in StrOps(R)})).val.toks)
+  /\ UNCHANGED <<ops, deps, enc>>
+
 Other ==
   /\ l <= Len(Rec)
-  /\ E.ev \notin {"reset", "commit", "chgdef", "readat", "curs"}
+  /\ E.ev \notin {"reset", "commit", "chgdef", "readat", "curs", "idprobe", "migrate"}
   /\ l' = l + 1
   /\ ObsOK(ops)
   /\ UNCHANGED <<ops, deps, enc>>
 
 Init == l = 1 /\ ops = <<>> /\ deps = <<>> /\ enc = "cp"
-Next == Reset \/ Commit \/ ChgDef \/ ReadAt \/ Curs \/ Other
+Next == Reset \/ Commit \/ ChgDef \/ ReadAt \/ Curs \/ IdProbe \/ Migrate \/ Other
 Spec == Init /\ [][Next]_vars
 
 Accepted ==
